@@ -436,8 +436,7 @@ func execC26(t *testing.T, c *sim.Case) *sim.Result {
 		_ = os.RemoveAll(dir)
 		_ = os.MkdirAll(dir, 0o755)
 		defer os.RemoveAll(dir)
-		p := &pdWorld{dir: dir, fs: sim.NewSimFS(dir)}
-		p.fs.Trace = res.Trace
+		p := &pdWorld{dir: dir, fs: tracedFS(dir, res.Trace)}
 		if err := p.start(); err != nil {
 			res.Violate(0, "start_failed", nil, "%v", err)
 			return
